@@ -554,10 +554,14 @@ void Ports::dispatch(const char *m, rtosc::RtData &d, bool base_dispatch) const
 
     //simple case
     if(!d.loc || !d.loc_size) {
+        bool matched = false;
         for(const Port &port: ports) {
             if(rtosc_match(port.name,m, NULL))
-                d.port = &port, port.cb(m,d), d.obj = obj;
+                d.port = &port, port.cb(m,d), d.obj = obj, matched = true;
         }
+        //the default handler does not depend on the lookup strategy
+        if(!matched && default_handler)
+            default_handler(m,d), d.obj = obj;
     } else {
 
         //TODO this function is certainly buggy at the moment, some tests
@@ -572,11 +576,13 @@ void Ports::dispatch(const char *m, rtosc::RtData &d, bool base_dispatch) const
         while(*old_end) ++old_end;
 
         if(impl->pos.empty()) { //No perfect minimal hash function
+            bool matched = false;
             for(unsigned i=0; i<elms; ++i) {
                 const Port &port = ports[i];
                 const char* m_end;
                 if(!rtosc_match(port.name, m, &m_end))
                     continue;
+                matched = true;
                 if(!port.ports)
                     d.matches++;
 
@@ -598,6 +604,10 @@ void Ports::dispatch(const char *m, rtosc::RtData &d, bool base_dispatch) const
                 //Remove the rest of the path
                 char *tmp = old_end;
                 while(*tmp) *tmp++=0;
+            }
+            if(!matched && default_handler) {
+                d.matches++;
+                default_handler(m,d), d.obj = obj;
             }
         } else {
 
